@@ -19,6 +19,7 @@ import (
 	"time"
 
 	"github.com/anishathalye/porcupine"
+	"github.com/samsarahq/thunder/batch"
 	"github.com/samsarahq/thunder/concurrencylimiter"
 	"github.com/samsarahq/thunder/verifharness/vlib"
 )
@@ -34,6 +35,7 @@ const (
 	opTRNoHolder        // TemporarilyRelease on a context without holder
 	opTRPanic           // like opTR, but f panics after Sub; the goroutine recovers and carries on in its critical section
 	opInner             // attach a second limiter of size A on THIS holder's returned context (With on a context that carries a holder of another limiter); A+1 goroutines Acquire on it, run Sub, release
+	opShare             // inside the own TemporarilyRelease: a second goroutine calls TemporarilyRelease on the SAME holder's context and is still inside when the owner's f returns
 	opChild             // start a goroutine that calls Acquire on THIS holder's returned context (nested Acquire), runs Sub, releases
 )
 
@@ -78,6 +80,8 @@ func opsString(ops []op) string {
 			sb.WriteString("C{" + opsString(o.Sub) + "}")
 		case opInner:
 			fmt.Fprintf(&sb, "L%d{%s}", o.A, opsString(o.Sub))
+		case opShare:
+			fmt.Fprintf(&sb, "H%d", o.A)
 		}
 	}
 	return sb.String()
@@ -122,7 +126,9 @@ func genOps(r *rand.Rand, n, depth int, simple, child bool) []op {
 		case k < 12:
 			ops = append(ops, op{K: opWork, A: 1 + r.Intn(3)})
 		default:
-			if simple || !child {
+			if depth >= 1 && !simple && r.Intn(2) == 0 {
+				ops = append(ops, op{K: opShare, A: r.Intn(6)})
+			} else if simple || !child {
 				ops = append(ops, op{K: opWork, A: 1})
 			} else {
 				// the child mostly waits inside TemporarilyRelease, as a batch waiter does
@@ -231,6 +237,24 @@ func (e *env) runOps(a *actor, r *rand.Rand, h *holder, ops []op, inTR bool) {
 				e.runOps(ca, cr, c, sub, false)
 				e.release(ca, c)
 			}()
+		case opShare:
+			if !inTR {
+				gosched(1)
+				break
+			}
+			// the second goroutine enters TemporarilyRelease while the owner is inside
+			// its own f (the holder is blocked or released then, never acquired), and
+			// stays longer than the owner
+			e.count("op:second_goroutine_in_tr_on_same_holder")
+			sa := e.newActor()
+			in := make(chan struct{})
+			stay := o.A
+			e.wg.Add(1)
+			go func() {
+				defer e.wg.Done()
+				e.trNoHolder(sa, h.ctx, func() { close(in); gosched(stay) })
+			}()
+			<-in
 		case opInner:
 			if h.kind != ctxNormal || h.lim != 0 {
 				gosched(1)
@@ -566,7 +590,7 @@ func randomScenario(run *vlib.Run, i int, agg *vlib.HitAgg, simple bool) (*env, 
 		ss = append(ss, fmt.Sprintf("g%d: %s", k, s))
 	}
 	desc["scripts"] = ss
-	desc["script_format"] = "A:<ctx>[ops]R<k>[h]: Acquire, ops, k release calls (h: none if a call of the release func by anyone has already begun); wK yields, T(..) TemporarilyRelease, P(..) TemporarilyRelease whose f panics (recovered), R own release, F foreign release, S foreign release aimed at a returning TemporarilyRelease, N TemporarilyRelease without holder, L<m>{..} With(this holder's context, m) and m+1 goroutines Acquire on it, run the ops, release; C{..} another goroutine calls Acquire on this holder's returned context (nested Acquire), runs the ops, releases"
+	desc["script_format"] = "A:<ctx>[ops]R<k>[h]: Acquire, ops, k release calls (h: none if a call of the release func by anyone has already begun); wK yields, T(..) TemporarilyRelease, P(..) TemporarilyRelease whose f panics (recovered), R own release, F foreign release, S foreign release aimed at a returning TemporarilyRelease, N TemporarilyRelease without holder, H<k> (inside T) a second goroutine enters TemporarilyRelease on this holder's context and stays k yields longer than the owner; L<m>{..} With(this holder's context, m) and m+1 goroutines Acquire on it, run the ops, release; C{..} another goroutine calls Acquire on this holder's returned context (nested Acquire), runs the ops, releases"
 
 	y.Install()
 	defer vlib.Uninstall()
@@ -1200,6 +1224,323 @@ func limiterScenario(run *vlib.Run, i, k int, agg *vlib.HitAgg) {
 	e.mu.Unlock()
 }
 
+// sharedScenario: two goroutines share one holder's context and are inside
+// TemporarilyRelease with overlapping lifetimes. The owner O enters first; the
+// helper S enters while O is inside its f (so S finds the holder blocked and
+// gives nothing up) and stays; O leaves first and is then outside
+// TemporarilyRelease, between Acquire and release: with the n-1 others
+// holding, B's Acquire must wait for O's release (tick order). Only the
+// owner's own TemporarilyRelease spans are subtracted from its holding span.
+func sharedScenario(run *vlib.Run, i, k int, agg *vlib.HitAgg) {
+	n := 1 + k%3
+	helpers := 1 + (k/3)%2
+	intensity := []int{0, 25}[(k/6)%2]
+	e := newEnv(n)
+	y := vlib.NewYielder(run.Seed()*49979687+int64(i), intensity)
+	e.y = y
+	y.Install()
+	defer vlib.Uninstall()
+	defer agg.Add(y)
+	desc := map[string]interface{}{"kind": "shared-holder-overlapping-tr", "helpers": helpers, "yield_intensity": intensity,
+		"scenario": "O: ctxO, relO := Acquire(base); n-1 others hold; O: TemporarilyRelease(ctxO, f) where f starts helper goroutine(s) S: TemporarilyRelease(ctxO, g) and returns once S is inside g; S stays inside g; B: Acquire(base) must wait for relO()"}
+	var wg sync.WaitGroup
+	fail := func(o vlib.Outcome, what string) {
+		e.hang(run, i, o, what, desc)
+		run.Case("shared hang", false)
+	}
+	oa := e.newActor()
+	O := e.acquire(oa, e.base, ctxNormal, nil)
+	var held int32
+	othersHold := make(chan struct{})
+	relAll := make(chan struct{})
+	if n == 1 {
+		close(othersHold)
+	}
+	for c := 0; c < n-1; c++ {
+		a := e.newActor()
+		wg.Add(1)
+		go func() {
+			defer wg.Done()
+			h := e.acquire(a, e.base, ctxNormal, nil)
+			if int(atomic.AddInt32(&held, 1)) == n-1 {
+				close(othersHold)
+			}
+			<-relAll
+			e.release(a, h)
+		}()
+	}
+	if o := e.await(othersHold); o != vlib.Reached {
+		fail(o, "Acquire of the n-1 other holders")
+		return
+	}
+	sGo := make(chan struct{})
+	oBack := make(chan struct{})
+	relO := make(chan struct{})
+	wg.Add(1)
+	go func() {
+		defer wg.Done()
+		e.tr(oa, O, func() {
+			for c := 0; c < helpers; c++ {
+				sa := e.newActor()
+				in := make(chan struct{})
+				wg.Add(1)
+				go func() {
+					defer wg.Done()
+					e.trNoHolder(sa, O.ctx, func() { close(in); <-sGo })
+				}()
+				<-in
+			}
+		})
+		close(oBack)
+		<-relO
+		e.release(oa, O)
+	}()
+	if o := e.await(oBack); o != vlib.Reached {
+		fail(o, "owner returning from TemporarilyRelease while a second goroutine is still inside TemporarilyRelease on the same holder")
+		return
+	}
+	bGot := make(chan struct{})
+	ab := e.newActor()
+	wg.Add(1)
+	go func() {
+		defer wg.Done()
+		h := e.acquire(ab, e.base, ctxNormal, nil)
+		close(bGot)
+		<-relAll
+		e.release(ab, h)
+	}()
+	for c := 0; c < 40; c++ {
+		select {
+		case <-bGot:
+			c = 40
+		default:
+			gosched(1)
+		}
+	}
+	close(relO)
+	if o := e.await(bGot); o != vlib.Reached {
+		fail(o, "Acquire after the owner released")
+		return
+	}
+	close(sGo)
+	close(relAll)
+	done := make(chan struct{})
+	go func() { wg.Wait(); close(done) }()
+	if o := e.await(done); o != vlib.Reached {
+		fail(o, "helpers returning from TemporarilyRelease / final releases")
+		return
+	}
+	if !e.epilogue(run, i, desc) {
+		run.Case("shared hang", false)
+		return
+	}
+	ov := e.verdict(run, i, desc)
+	evs := e.merged()
+	sh, _, feats := e.shape(evs, ov)
+	run.Case(fmt.Sprintf("shared helpers=%d %s", helpers, sh), true)
+	run.Count("shared_holder_cases", 1)
+	for f, c := range feats {
+		run.Count("observed:"+f, c)
+	}
+	e.mu.Lock()
+	for f, c := range e.feat {
+		run.Count(f, c)
+	}
+	e.mu.Unlock()
+}
+
+// batchWaiterScenario combines the limiter with batch.Func: W holds a token
+// (acquired on its own cancellable context) and calls Func.Invoke, becoming a
+// WAITER of a group created by C (MaxSize 2, timers far away, so W's arrival
+// triggers the batch); C's Many parks on a gate; W's context is cancelled
+// while the batch is running. The whole Invoke call is treated as a possible
+// TemporarilyRelease span of W (conservative); once Invoke has returned W is
+// between Acquire and release again. The n-1 others hold; B acquires after the
+// cancellation: it may take the slot W gave up only while W is still inside
+// Invoke.
+func batchWaiterScenario(run *vlib.Run, i, k int, agg *vlib.HitAgg) {
+	n := 1 + k%3
+	intensity := []int{0, 25}[(k/3)%2]
+	limiterFirst := (k/6)%2 == 1
+	e := newEnv(n)
+	y := vlib.NewYielder(run.Seed()*67867967+int64(i), intensity)
+	e.y = y
+	y.Install()
+	defer vlib.Uninstall()
+	defer agg.Add(y)
+	desc := map[string]interface{}{"kind": "batch-waiter-cancelled", "yield_intensity": intensity, "limiter_attached_before_batching": limiterFirst,
+		"scenario": "n-1 others hold; C: f.Invoke(bctx, c) creates the group (MaxSize 2); W: wctx, relW := Acquire(WithCancel(bctx)); f.Invoke(wctx, w) joins, Many runs and parks; cancel W's context; B: Acquire; Many is let go; W releases after B had its chance"}
+	var bctx context.Context
+	if limiterFirst {
+		bctx = batch.WithBatching(e.base)
+	} else {
+		// batching attached first, the limiter on top of it
+		e.base = concurrencylimiter.With(batch.WithBatching(context.Background()), n)
+		bctx = e.base
+	}
+	manyIn := make(chan struct{})
+	gate := make(chan struct{})
+	var once sync.Once
+	f := &batch.Func{MaxSize: 2, WaitInterval: time.Hour, MaxDuration: time.Hour,
+		Many: func(ctx context.Context, args []interface{}) ([]interface{}, error) {
+			once.Do(func() { close(manyIn) })
+			<-gate
+			return append([]interface{}(nil), args...), nil
+		}}
+	var wg sync.WaitGroup
+	fail := func(o vlib.Outcome, what string) {
+		e.hang(run, i, o, what, desc)
+		run.Case("batchwaiter hang", false)
+	}
+	var held int32
+	othersHold := make(chan struct{})
+	relAll := make(chan struct{})
+	if n == 1 {
+		close(othersHold)
+	}
+	for c := 0; c < n-1; c++ {
+		a := e.newActor()
+		wg.Add(1)
+		go func() {
+			defer wg.Done()
+			h := e.acquire(a, e.base, ctxNormal, nil)
+			if int(atomic.AddInt32(&held, 1)) == n-1 {
+				close(othersHold)
+			}
+			<-relAll
+			e.release(a, h)
+		}()
+	}
+	if o := e.await(othersHold); o != vlib.Reached {
+		fail(o, "Acquire of the n-1 other holders")
+		return
+	}
+	// C creates the group
+	wg.Add(1)
+	go func() {
+		defer wg.Done()
+		_, _ = f.Invoke(bctx, "c")
+	}()
+	if o := vlib.WaitCond(func() bool { return y.Hits()["batch.invoke.registered"] >= 1 }, e.activity, 2*time.Second, 30*time.Second); o != vlib.Reached {
+		if o == vlib.QuiescentNot {
+			run.Inconclusive(fmt.Sprintf("case %d: hook batch.invoke.registered never visited", i))
+			run.Case("batchwaiter hang", false)
+		} else {
+			fail(o, "creator registering its batch group")
+		}
+		close(gate)
+		return
+	}
+	// W: token holder on an own cancellable context, becomes a waiter
+	wa := e.newActor()
+	cctx, cancel := context.WithCancel(bctx)
+	defer cancel()
+	ct := new(int64)
+	*ct = inf
+	W := e.acquireLim(wa, cctx, ctxCancelDuring, ct, 0)
+	wBack := make(chan struct{})
+	relW := make(chan struct{})
+	wg.Add(1)
+	go func() {
+		defer wg.Done()
+		t0 := wa.ev(e, W.id, evTRCall, 0)
+		W.mu.Lock()
+		idx := len(W.trs)
+		W.trs = append(W.trs, [2]int64{t0, inf})
+		W.mu.Unlock()
+		_, _ = f.Invoke(W.ctx, "w")
+		t1 := wa.ev(e, W.id, evTRRet, 0)
+		W.mu.Lock()
+		W.trs[idx][1] = t1
+		W.mu.Unlock()
+		close(wBack)
+		<-relW
+		e.release(wa, W)
+	}()
+	if o := e.await(manyIn); o != vlib.Reached {
+		fail(o, "batch triggered by the waiter's arrival (MaxSize reached)")
+		close(gate)
+		return
+	}
+	ca := e.newActor()
+	atomic.StoreInt64(ct, ca.ev(e, -1, evCancel, 0))
+	cancel()
+	for c := 0; c < 60; c++ {
+		select {
+		case <-wBack:
+			c = 60
+		default:
+			gosched(1)
+		}
+	}
+	bGot := make(chan struct{})
+	relB := make(chan struct{})
+	ab := e.newActor()
+	wg.Add(1)
+	go func() {
+		defer wg.Done()
+		h := e.acquire(ab, e.base, ctxNormal, nil)
+		close(bGot)
+		<-relB
+		e.release(ab, h)
+	}()
+	// B gets in while W is inside Invoke (its slot is given up), or - if W is
+	// already back and holding - only after W released; give it its chance
+	for c := 0; c < 60; c++ {
+		select {
+		case <-bGot:
+			c = 60
+		default:
+			gosched(1)
+		}
+	}
+	select {
+	case <-wBack:
+		// W came back before the batch finished: it releases now (tick order decides)
+		close(relW)
+		relW = nil
+	default:
+	}
+	if o := e.await(bGot); o != vlib.Reached {
+		fail(o, "Acquire while the cancelled waiter is inside Invoke or after it released")
+		close(gate)
+		return
+	}
+	close(relB)
+	close(gate)
+	if o := e.await(wBack); o != vlib.Reached {
+		fail(o, "Invoke of the cancelled waiter after the batch finished")
+		return
+	}
+	if relW != nil {
+		close(relW)
+	}
+	close(relAll)
+	done := make(chan struct{})
+	go func() { wg.Wait(); close(done) }()
+	if o := e.await(done); o != vlib.Reached {
+		fail(o, "final releases")
+		return
+	}
+	if !e.epilogue(run, i, desc) {
+		run.Case("batchwaiter hang", false)
+		return
+	}
+	ov := e.verdict(run, i, desc)
+	evs := e.merged()
+	sh, _, feats := e.shape(evs, ov)
+	run.Case(fmt.Sprintf("batchwaiter %s", sh), true)
+	run.Count("batch_waiter_cases", 1)
+	for f, c := range feats {
+		run.Count("observed:"+f, c)
+	}
+	e.mu.Lock()
+	for f, c := range e.feat {
+		run.Count(f, c)
+	}
+	e.mu.Unlock()
+}
+
 // ---------------------------------------------------------------- porcupine
 
 type semIn struct {
@@ -1364,6 +1705,8 @@ func TestCheck(t *testing.T) {
 		"(1b) nested Acquire: n in 2..4, parent P holds and keeps running, 1..2 child goroutines Acquire on P's returned context and wait inside (nested) TemporarilyRelease, n others Acquire, P releases only after n-1 of them hold; " +
 		"(1c) fault inside f: n in 1..3, A acquires and calls TemporarilyRelease (optionally nested) with an f that panics (recovered) or calls runtime.Goexit (deferred function carries on), A stays in its critical section, n-1 others hold, B's Acquire must wait for A's release; " +
 		"(1d) nested limiters: outer size 1..3, inner size 1..3 attached with With on the context returned by an Acquire on the outer one, outer filled or not, parent released first or not: the idle inner limiter admits its m, the (m+1)-th waits for an inner release, every limiter is checked against its own bound; " +
+		"(1e) shared holder: the owner and 1..2 helper goroutines are inside TemporarilyRelease on one holder's context with overlapping lifetimes (owner enters first, leaves first), n-1 others hold, B's Acquire must wait for the owner's release; " +
+		"(1f) batch waiter: a token holder on its own cancellable context becomes a waiter of a batch.Func group whose Many is parked, its context is cancelled meanwhile, a further Acquire arrives; the Invoke call counts as a possible TemporarilyRelease span, afterwards the caller is holding again; " +
 		"(2) random: n in 1..4, 2..24 goroutines, each 1..3 Acquire segments on a limiter / pre-cancelled / limiter-less / concurrently-cancelled context with bodies of nested TemporarilyRelease (depth<=3, one in five with an f that panics and is recovered), early and double release, holders released exactly once by another goroutine (the owner adds no call once one has begun), release inside own TemporarilyRelease, release of other goroutines' holders (also aimed at a returning TemporarilyRelease), child goroutines that Acquire on the running parent's returned context and mostly wait inside TemporarilyRelease, a second limiter (size 1..2) attached on a holder's returned context with size+1 goroutines acquiring on it, TemporarilyRelease without holder, random hook yields and an optional injected release at a limiter hook; every scenario ends with the capacity check (n fresh Acquires, Acquire on cancelled / limiter-less contexts while all tokens are held, again on a pre-cancelled and on a cancelled-while-waiting context with a live goroutine parked in Acquire, (n+1)-th Acquire only after a release); " +
 		"(3) the targeted histories with n<=2 and short random histories (<=12 scripted operations plus the capacity check, n in 1..2, 2..4 goroutines) additionally checked with porcupine against a counting-semaphore model. " +
 		"Non-trivial = the limit was reached in the scripted part (observed overlap == n before the capacity check) and some holder had a TemporarilyRelease plus a foreign release or a release inside it; distinct = n, max overlap and the multiset of per-holder lifecycles (outermost TR enter/return, own/foreign release and whether it fell outside TR, inside f, or in the re-acquire window).")
@@ -1376,9 +1719,11 @@ func TestCheck(t *testing.T) {
 	nN := run.N(120, 3000)
 	nF := run.N(96, 2400)
 	nL := run.N(144, 2880)
+	nS := run.N(72, 1440)
+	nB := run.N(72, 1440)
 	nR := run.N(20000, 1600000)
 	nP := run.N(1500, 100000)
-	run.Each(nT+nN+nF+nL+nR+nP, 1, func(i int) {
+	run.Each(nT+nN+nF+nL+nS+nB+nR+nP, 1, func(i int) {
 		if run.Violations() >= 6 {
 			// enough unclassified witnesses; hung scenarios leave parked goroutines
 			// behind and cost seconds each, so stop early
@@ -1395,7 +1740,11 @@ func TestCheck(t *testing.T) {
 			faultScenario(run, i, i-nT-nN, agg)
 		case i < nT+nN+nF+nL:
 			limiterScenario(run, i, i-nT-nN-nF, agg)
-		case i < nT+nN+nF+nL+nR:
+		case i < nT+nN+nF+nL+nS:
+			sharedScenario(run, i, i-nT-nN-nF-nL, agg)
+		case i < nT+nN+nF+nL+nS+nB:
+			batchWaiterScenario(run, i, i-nT-nN-nF-nL-nS, agg)
+		case i < nT+nN+nF+nL+nS+nB+nR:
 			randomScenario(run, i, agg, false)
 		default:
 			porcupineScenario(run, i, agg)
